@@ -125,6 +125,10 @@ class SWorld:
 
     def close(self) -> None:
         with hx.native():
+            seen = hx.STATS.extra.setdefault("shapes", [])
+            for sh in self.db.shapes:
+                if sh not in seen:
+                    seen.append(sh)
             try:
                 SingletonMeta.reset(ConnectionManager)
             except Exception:
